@@ -42,11 +42,16 @@ Definition sig_io_keys (algs : list sign_alg) (jws : json) (sig : option json) (
   match tmpls with
   | None => None
   | Some tl =>
+      (* an empty key set gives a multiplexer without branches, whose feed fails *)
+      match keys with
+      | [] => None
+      | _ =>
       (* every signer is constructed first (find_alg, key checks); only then is the payload fed *)
       fold_left (fun acc tk => match acc with
                                | None => None
                                | Some j => sig_single algs j (fst tk) (snd tk) rnd pay
                                end) (combine tl keys) (Some jws)
+      end
   end.
 
 Definition jws_sig (algs : list sign_alg) (jws : json) (sig : option json) (jwk : json) (rnd : bytes) : option json :=
